@@ -78,6 +78,10 @@ func TestC16_JWKRoundTrip(t *testing.T) {
 		if j.X != b64(x) || j.Y != wantY {
 			t.Fatalf("C16 %s: coordinates not preserved at fixed width %d: x=%q y=%q want x=%q y=%q", k.Name, kt.Width(), j.X, j.Y, b64(x), wantY)
 		}
+		// the reader of update / recovery keys in requests (jws.JWK.Validate) takes it
+		if err := j.Validate(); err != nil {
+			t.Fatalf("C16 %s: JWK of a supported key refused by jws.JWK.Validate: %v (%s)", k.Name, err, refJCS(map[string]interface{}{"kty": j.Kty, "crv": j.Crv, "x": j.X, "y": j.Y}))
+		}
 		// read back
 		back, err := unmarshalJWK(j)
 		if err != nil {
@@ -255,6 +259,53 @@ func TestC16_JWKRoundTrip(t *testing.T) {
 			var noType jwsutil.JWK
 			if err := noType.UnmarshalJSON([]byte(refJCS(map[string]interface{}{"KTY": j.Kty, "CRV": j.Crv, "x": j.X, "y": j.Y}))); err == nil {
 				t.Fatalf("C16 %s: JWK without kty / crv members (only KTY / CRV) accepted", k.Name)
+			}
+		}
+		// key type / curve names spelled in another letter case: refusing them is fine, but a reader that takes them must still
+		// hand out the key under the registered names (the JWK it writes is what commitments are computed from)
+		{
+			flip := func(s, l string) string {
+				r := []rune(s)
+				changed := false
+				for i := range r {
+					if rapid.Bool().Draw(t, l) {
+						if u := []rune(strings.ToUpper(string(r[i])))[0]; u != r[i] {
+							r[i], changed = u, true
+						} else if lo := []rune(strings.ToLower(string(r[i])))[0]; lo != r[i] {
+							r[i], changed = lo, true
+						}
+					}
+				}
+				if !changed {
+					if up := strings.ToUpper(s); up != s {
+						return up
+					}
+					return strings.ToLower(s)
+				}
+				return string(r)
+			}
+			m := map[string]interface{}{"kty": j.Kty, "crv": j.Crv, "x": j.X}
+			if j.Y != "" {
+				m["y"] = j.Y
+			}
+			switch rapid.IntRange(0, 2).Draw(t, "respelledName") {
+			case 0:
+				m["kty"] = flip(j.Kty, "ktyCase")
+			case 1:
+				m["crv"] = flip(j.Crv, "crvCase")
+			default:
+				m["kty"], m["crv"] = flip(j.Kty, "ktyCase"), flip(j.Crv, "crvCase")
+			}
+			var respelled jwsutil.JWK
+			if err := respelled.UnmarshalJSON([]byte(refJCS(m))); err == nil {
+				bj, err := respelled.MarshalJSON()
+				var out map[string]interface{}
+				if err != nil || json.Unmarshal(bj, &out) != nil || out["kty"] != j.Kty || out["crv"] != j.Crv || out["x"] != j.X || (j.Y != "" && out["y"] != j.Y) {
+					t.Fatalf("C16 %s: JWK read from %s is written as %s (%v): not the registered key type / curve name", k.Name, refJCS(m), bj, err)
+				}
+				st.Label("respelled-names-accepted")
+			} else {
+				st.Label("respelled-names-refused")
 			}
 		}
 		// the bytes of a marshalled key belong to the caller: marshalling another key does not change them
